@@ -54,6 +54,10 @@ func Run(r *core.Run) {
 					}
 				}
 			}
+			if t == "secp256k1" {
+				// ... and the six points with Y = 1 or P-1 (one coordinate of 31 zero bytes; x^3 + 7 = 1 only after reduction)
+				special = append(special, keys.Secp256k1WithYSquaredOne()...)
+			}
 			r.Class("special-keys-" + t)
 		}
 		core.Parallel(count+len(special), func(i int) {
